@@ -72,9 +72,9 @@ pub fn event_json(e: &Event) -> Value {
             "position": bits(position), "momentum": bits(momentum), "joint": joint.to_bits(), "exp1": exp1.to_bits(),
             "logu": logu.to_bits(), "epsilon": epsilon.to_bits()}),
         Event::NutsDoubling { j, v, u_run_1 } => json!({"e": "doubling", "j": j, "v": v, "u1": u_run_1.to_bits()}),
-        Event::NutsLeaf { v, position, momentum, joint, n_prime, s_prime, alpha } => json!({"e": "leaf", "v": v,
+        Event::NutsLeaf { v, position, momentum, joint, n_prime, s_prime, alpha, ratio } => json!({"e": "leaf", "v": v,
             "position": bits(position), "momentum": bits(momentum), "joint": joint.to_bits(), "n": n_prime, "s": s_prime,
-            "alpha": alpha.to_bits()}),
+            "alpha": alpha.to_bits(), "ratio": ratio.to_bits()}),
         Event::NutsMerge { j, u, n_first, n_second, took_second, n_after, s_after, alpha_after, n_alpha_after } => json!({
             "e": "merge", "j": j, "u": u.to_bits(), "n1": n_first, "n2": n_second, "took": took_second, "n": n_after,
             "s": s_after, "alpha": alpha_after.to_bits(), "nalpha": n_alpha_after}),
